@@ -82,6 +82,7 @@ class CoreStub:
         self.cycle = 0
         self.events = []          # violation witnesses of the DUT (underrun / drop)
         self.accepted = [[] for _ in ports]   # (cycle, we, addr)
+        self.accepted_last = [[] for _ in ports]   # cmd.last of each accepted command (same order)
         self.rbeats = [[] for _ in ports]     # (cycle, addr, data, taken)
         self.wbeats = [[] for _ in ports]     # (cycle, addr, data, we, valid)
         self.pending_writes = {}  # addr -> set of seq numbers of accepted-but-unapplied writes
@@ -107,7 +108,7 @@ class CoreStub:
         n = len(ports)
         sigs = []
         for p in ports:
-            sigs += [p.cmd.valid, p.cmd.we, p.cmd.addr, p.wdata.valid, p.wdata.data, p.wdata.we, p.rdata.ready]
+            sigs += [p.cmd.valid, p.cmd.we, p.cmd.addr, p.wdata.valid, p.wdata.data, p.wdata.we, p.rdata.ready, p.cmd.last]
         ready = [0] * n
         wpulse = [None] * n     # entry whose wdata.ready pulse is on the wire this cycle
         rpulse = [None] * n
@@ -120,7 +121,7 @@ class CoreStub:
             cyc = self.cycle
             stmts = []
             for i, p in enumerate(ports):
-                cv, cwe, caddr, wv, wd, wwe, rr = vals[7 * i:7 * i + 7]
+                cv, cwe, caddr, wv, wd, wwe, rr, clast = vals[8 * i:8 * i + 8]
                 # ---- sample: command acceptance
                 if ready[i] and cv:
                     self.seq += 1
@@ -128,6 +129,7 @@ class CoreStub:
                     e = dict(seq=self.seq, we=cwe, addr=caddr, t_acc=cyc, due=cyc + lat, port=i)
                     self.queues[i].append(e)
                     self.accepted[i].append((cyc, cwe, caddr))
+                    self.accepted_last[i].append(clast)
                     if cwe:
                         self.pending_writes.setdefault(caddr, set()).add(self.seq)
                     else:
